@@ -63,20 +63,25 @@ theorem C03_fresh_equiv (h : List HOp) (q : Query) :
   · rw [h2, h1]
     simp [bind, Except.bind]
 
-/-- `freshAnswer` is the shared core's query (the function C01 is about), here for the right-hand side. -/
-theorem C03_fresh_is_core_rhs (c : Content) (vals : List Rat) (t : Rat) :
+/-- `freshAnswer` is the shared core's query (the function C01 is about), here for the right-hand side.
+    (The shared core does not model the final `args.pop(data)` of `_get_args`; without data sets the two
+    coincide.) -/
+theorem C03_fresh_is_core_rhs (c : Content) (hd : c.data = []) (vals : List Rat) (t : Rat) :
     freshAnswer c (.rhs (some vals) t)
       = (Mxl.getRhsQ c (some (cycle vals 0 (omKeys c.vars))) t).map Ans.assoc := by
-  unfold freshAnswer Mxl.getRhsQ answer stateOf resolveVars
+  unfold freshAnswer Mxl.getRhsQ answer stateOf resolveVars rawArgs
   cases createCache c with
   | error e => rfl
   | ok cache =>
-    simp only [bind, Except.bind, Option.getD_some, Except.map]
+    simp only [bind, Except.bind, Option.getD_some, Except.map, hd]
     cases getArgsEnv c cache (cycle vals 0 (omKeys c.vars)) t with
     | error e => rfl
     | ok dep =>
-      simp only
-      cases rhsFromArgs cache (omKeys c.vars) dep <;> rfl
+      have : List.filter (fun kv : Name × Rat => !(omKeys ([] : List (Name × Rat))).contains kv.1) dep = dep := by
+        apply List.filter_eq_self.mpr
+        intro kv _
+        rfl
+      simp only [pure, Except.pure, this]
 
 /-! ## one name space, kept exact by every edit -/
 
